@@ -722,8 +722,16 @@ func runMgr(prop string) func(s *Sim) {
 		maxTags := map[string]int{}
 		originsFor := func(id string) []string { return []string{"", "web", id, "other", "w"} }
 		nid := 0
+		idles := 0
 		for wl.More(12) {
-			switch weighted(wl, []int{5, 3, 3, 2, 3, 2, 6, 2, 2, 2, 1, 4}) {
+			switch weighted(wl, []int{5, 3, 3, 2, 3, 2, 6, 2, 2, 2, 1, 4, 1}) {
+			case 12: // more than a minute passes for this writer: what it does next happens after the manager's periodic rescans
+				if idles >= 2 {
+					continue
+				}
+				idles++
+				d := time.Duration(61+wl.Draw(70)) * time.Second
+				addOp(fmt.Sprintf("idle %s", d), func(a *Actor) error { time.Sleep(d); return nil })
 			case 0: // new testNode under a container
 				nid++
 				id := fmt.Sprintf("t%d", nid)
